@@ -3,6 +3,7 @@ import Props.C07
 import Proofs.Locks
 import Model.Signals
 import Proofs.Offline
+import Proofs.Signals
 /-! # C10 — the read routine never wedges: failed connections are left and redialed
 
 Model: `Model.Sync` (every interleaving of the read routine with any number of
@@ -155,5 +156,13 @@ theorem C10_failed_readall_gives_up (s : S) (size : Nat) (rd : Rd) (hb : s.big =
   rw [hl] at this
   exact this rfl
 example : (readAllLoop 2 { size := 4 } 1 []).2.2 = true := by decide
+
+/-- `toOffline` blocks the Online signal (and so releases Offline) unless the client is closed, in which case `Close` has done so -/
+theorem C10_toOffline_blocks_online (s : S) (h : s.link ≠ .closed) : s.toOffline.online = false := by
+  rw [toOffline_eq]
+  have : (s.link == Link.closed) = false := by cases hl : s.link <;> simp_all
+  simp only [this, Bool.false_eq_true, if_false]
+  unfold offTail
+  rw [breakAll_online, releasePing_online]
 
 end Model
